@@ -687,3 +687,33 @@ Proof.
     split; [exact Hgd|]. exists k0. split; [exact Hld|lia].
   - exists ops1, p, ops2. split; [exact E1|]. split; [exact E2|]. split; [exact E3|]. cbn zeta. split; [exact E4|]. split; [exact E5|exact E6].
 Qed.
+
+(* ... race and race_ok from every reachable state: after ANY schedule ops0, if the race has not resolved, any further schedule with more than k polls
+   resolves it (k the bound of the freshly constructed race: Pending answers only get consumed) *)
+Theorem race_returns_from scs ops0 ops i0 k : i0 < length scs -> allgood scs -> lead (nth i0 scs []) = Some k -> sched ops0 -> sched ops ->
+  let w := race_world scs ops0 in finished _ w = false -> k < npolls ops ->
+  exists ops1 p ops2, ops = ops1 ++ p :: ops2 /\ is_poll p = true /\ npolls ops1 <= k /\
+    let w1 := p_world rst race_poll r_drops w ops1 in
+    finished _ w1 = false /\ dropped _ w1 = false /\ returns rst w1 (p_step rst race_poll r_drops w1 p).
+Proof.
+  intros Hi Hg Hl Hs0 Hs w Hf Hk. unfold w, race_world in *. fold (race_w0 scs) in *.
+  destruct (pass_next rst race_poll r_drops (I_race i0) (race_poll_live i0) k (race_w0 scs) ops0 ops Hs0 Hs) as (ops1 & p & ops2 & E1 & E2 & E3 & E4 & E5 & E6 & E7);
+    [|exact Hf|exact Hk|].
+  - split; [reflexivity|]. right. exists k. split; [lia|]. unfold race_w0, I_race. cbn. auto.
+  - exists ops1, p, ops2. split; [exact E1|]. split; [exact E2|]. split; [exact E3|]. cbn zeta. split; [exact E4|]. split; [exact E5|exact E6].
+Qed.
+Theorem race_ok_returns_from kind scs ops0 ops b : (forall i, i < length scs -> goodf (nth i scs []) = true /\ exists k, lead (nth i scs []) = Some k /\ k <= b) ->
+  sched ops0 -> sched ops -> let w := race_ok_world kind scs ops0 in finished _ w = false -> b < npolls ops ->
+  exists ops1 p ops2, ops = ops1 ++ p :: ops2 /\ is_poll p = true /\ npolls ops1 <= b /\
+    let w1 := p_world kst rok_poll k_drops w ops1 in
+    finished _ w1 = false /\ dropped _ w1 = false /\ returns kst w1 (p_step kst rok_poll k_drops w1 p).
+Proof.
+  intros Hsc Hs0 Hs w Hf Hk. unfold w, race_ok_world in *. fold (rok_w0 kind scs) in *.
+  destruct (pass_next kst rok_poll k_drops I_rok rok_poll_live b (rok_w0 kind scs) ops0 ops Hs0 Hs) as (ops1 & p & ops2 & E1 & E2 & E3 & E4 & E5 & E6 & E7);
+    [|exact Hf|exact Hk|].
+  - split; [reflexivity|]. right. exists b. split; [lia|]. unfold rok_w0, I_rok. cbn [cs scripts mk_world]. split.
+    + constructor; cbn [rok_init k_n k_errs k_completed]; [reflexivity|apply repeat_length|rewrite all_vals_repeat_none; reflexivity|].
+      intros i _. destruct (Nat.lt_ge_cases i (length scs)) as [Hi|Hi]; [apply Hsc, Hi|rewrite nth_overflow; auto].
+    + intros i Hi _. apply Hsc, Hi.
+  - exists ops1, p, ops2. split; [exact E1|]. split; [exact E2|]. split; [exact E3|]. cbn zeta. split; [exact E4|]. split; [exact E5|exact E6].
+Qed.
